@@ -1,6 +1,7 @@
 /-
-  Rbgp.Enc.Proofs.Chunk — the "does one more entry fit" loop and the chunk loop of `encode_to`:
-  what is taken, the size bound, progress, and the partition of the entry list.
+  Rbgp.Enc.Proofs.Chunk — the "does one more entry fit" loop (`put_entries`) and the chunk loop of
+  `encode_to`: what is taken, the size bound (unconditional: the loop measures the actual encoded length),
+  progress, and the partition of the entry list.
 -/
 import Rbgp.Enc.Proofs.Tlv
 namespace Rbgp.Enc
@@ -9,13 +10,14 @@ namespace Rbgp.Enc
 def encE (ap : Bool) (e : Entry) : Bytes :=
   (if ap then be32 e.pid else []) ++ (e.nlri.encode.getD [])
 
-/-- number of entries the fit loop takes -/
-def fitN (max maxLen : Nat) (ap : Bool) : Nat → List Entry → Nat
+/-- number of entries the fit loop takes: the longest prefix whose bytes, plus `tail`, stay within `max` -/
+def fitN (max tail : Nat) (ap : Bool) : Nat → List Entry → Nat
   | _, [] => 0
-  | cur, e :: es => if max > cur + maxLen then fitN max maxLen ap (cur + (encE ap e).length) es + 1 else 0
+  | cur, e :: es =>
+      if cur + (encE ap e).length + tail ≤ max then fitN max tail ap (cur + (encE ap e).length) es + 1 else 0
 
-theorem fitN_le (max maxLen : Nat) (ap : Bool) (cur : Nat) (es : List Entry) :
-    fitN max maxLen ap cur es ≤ es.length := by
+theorem fitN_le (max tail : Nat) (ap : Bool) (cur : Nat) (es : List Entry) :
+    fitN max tail ap cur es ≤ es.length := by
   induction es generalizing cur with
   | nil => simp [fitN]
   | cons e es ih =>
@@ -23,66 +25,103 @@ theorem fitN_le (max maxLen : Nat) (ap : Bool) (cur : Nat) (es : List Entry) :
       · have := ih (cur + (encE ap e).length); simp; omega
       · simp
 
-/-- no entry's standalone encoder panics -/
-def EncOk (es : List Entry) : Prop := ∀ e ∈ es, e.nlri.encode.isSome = true
+/-- no entry's own encoder panics or refuses -/
+def EncOk (es : List Entry) : Prop := ∀ e ∈ es, ∃ b, e.nlri.encode = .ok b
 
-theorem fitLoop_eq (max maxLen : Nat) (ap : Bool) (cur : Nat) (es : List Entry) (h : EncOk es) :
-    fitLoop max maxLen ap cur es =
-      .ok ((es.take (fitN max maxLen ap cur es)).flatMap (encE ap), fitN max maxLen ap cur es) := by
+theorem fitLoop_eq (max tail : Nat) (ap : Bool) (cur : Nat) (es : List Entry) (h : EncOk es) :
+    fitLoop max tail ap cur es =
+      .ok ((es.take (fitN max tail ap cur es)).flatMap (encE ap), fitN max tail ap cur es) := by
   induction es generalizing cur with
   | nil => simp [fitLoop, fitN]
   | cons e es ih =>
-      have he : e.nlri.encode.isSome = true := h e (by simp)
+      obtain ⟨nb, hnb⟩ := h e (by simp)
       have hes : EncOk es := fun e' he' => h e' (by simp [he'])
-      simp only [fitLoop, fitN]
+      have hb : (if ap = true then be32 e.pid else []) ++ nb = encE ap e := by simp [encE, hnb]
+      simp only [fitLoop, fitN, hnb, hb]
       split
-      · obtain ⟨nb, hnb⟩ := Option.isSome_iff_exists.mp he
-        simp only [hnb]
-        have hb : (if ap = true then be32 e.pid else []) ++ nb = encE ap e := by simp [encE, hnb]
-        simp only [hb]
-        rw [show (do
-              let x ← fitLoop max maxLen ap (cur + (encE ap e).length) es
+      · rw [show (do
+              let x ← fitLoop max tail ap (cur + (encE ap e).length) es
               match x with
               | (bs, n) => pure (encE ap e ++ bs, n + 1) : Out (Bytes × Nat))
-            = (fitLoop max maxLen ap (cur + (encE ap e).length) es >>= fun x =>
+            = (fitLoop max tail ap (cur + (encE ap e).length) es >>= fun x =>
                  Out.ok (encE ap e ++ x.1, x.2 + 1)) from rfl]
         rw [ih _ hes]
         simp [List.take_succ_cons]
       · simp
 
-/-- Size bound: once at least one entry is taken the frame stays below the maximum, with `k` bytes to
-    spare when every entry is `k` bytes shorter than the reservation. -/
-theorem fitN_bound_slack (max maxLen k : Nat) (ap : Bool) (cur : Nat) (es : List Entry)
-    (hsz : ∀ e ∈ es, (encE ap e).length + k ≤ maxLen) (hpos : 0 < fitN max maxLen ap cur es) :
-    cur + ((es.take (fitN max maxLen ap cur es)).flatMap (encE ap)).length + k < max := by
+/-- `put_entries` under progress: the fit loop's result -/
+theorem putEntries_eq (max tail : Nat) (ap : Bool) (cur : Nat) (es : List Entry) (h : EncOk es)
+    (hpos : es ≠ [] → fitN max tail ap cur es ≠ 0) :
+    putEntries max tail ap cur es =
+      .ok ((es.take (fitN max tail ap cur es)).flatMap (encE ap), fitN max tail ap cur es) := by
+  unfold putEntries
+  rw [fitLoop_eq max tail ap cur es h]
+  simp only [Out.bind_ok]
+  by_cases hes : es = []
+  · subst hes; simp [fitN]
+  · have := hpos hes
+    simp [this]
+
+/-- `put_entries` never returns a zero count for a non-empty list: no frame without progress -/
+theorem putEntries_pos (max tail : Nat) (ap : Bool) (cur : Nat) (es : List Entry) (nb : Bytes) (n : Nat)
+    (h : putEntries max tail ap cur es = .ok (nb, n)) (hes : es ≠ []) : n ≠ 0 := by
+  unfold putEntries at h
+  cases hf : fitLoop max tail ap cur es with
+  | panic => rw [hf] at h; cases h
+  | err => rw [hf] at h; cases h
+  | ok r =>
+      rw [hf] at h
+      obtain ⟨nb', n'⟩ := r
+      simp only [Out.bind_ok] at h
+      intro hn
+      split at h
+      · cases h
+      · rename_i hc
+        simp only [Out.pure_eq, Out.ok.injEq, Prod.mk.injEq] at h
+        apply hc
+        refine ⟨by omega, ?_⟩
+        cases es with
+        | nil => exact absurd rfl hes
+        | cons _ _ => rfl
+
+/-- **Size bound (unconditional)**: once at least one entry has been taken, the frame plus the `tail` still to be
+    written stays within the maximum. -/
+theorem fitN_bound (max tail : Nat) (ap : Bool) (cur : Nat) (es : List Entry)
+    (hpos : 0 < fitN max tail ap cur es) :
+    cur + ((es.take (fitN max tail ap cur es)).flatMap (encE ap)).length + tail ≤ max := by
   induction es generalizing cur with
   | nil => simp [fitN] at hpos
   | cons e es ih =>
       simp only [fitN] at hpos ⊢
       split at hpos
-      · rename_i hgt
-        simp only [hgt, if_true, List.take_succ_cons, List.flatMap_cons, List.length_append]
-        have hle := hsz e (by simp)
-        by_cases hp : 0 < fitN max maxLen ap (cur + (encE ap e).length) es
-        · have := ih (cur + (encE ap e).length) (fun e' he' => hsz e' (by simp [he'])) hp
+      · rename_i hle
+        simp only [hle, if_true, List.take_succ_cons, List.flatMap_cons, List.length_append]
+        by_cases hp : 0 < fitN max tail ap (cur + (encE ap e).length) es
+        · have := ih (cur + (encE ap e).length) hp
           omega
-        · have h0 : fitN max maxLen ap (cur + (encE ap e).length) es = 0 := by omega
+        · have h0 : fitN max tail ap (cur + (encE ap e).length) es = 0 := by omega
           simp [h0]; omega
       · omega
 
-theorem fitN_bound (max maxLen : Nat) (ap : Bool) (cur : Nat) (es : List Entry)
-    (hsz : ∀ e ∈ es, (encE ap e).length ≤ maxLen) (hpos : 0 < fitN max maxLen ap cur es) :
-    cur + ((es.take (fitN max maxLen ap cur es)).flatMap (encE ap)).length < max := by
-  have := fitN_bound_slack max maxLen 0 ap cur es (by simpa using hsz) hpos
-  omega
-
-/-- Progress: a non-empty list and room for the reservation ⇒ at least one entry is taken. -/
-theorem fitN_pos (max maxLen : Nat) (ap : Bool) (cur : Nat) (e : Entry) (es : List Entry)
-    (h : max > cur + maxLen) : 0 < fitN max maxLen ap cur (e :: es) := by
+/-- Progress: the first entry fits ⇒ at least one entry is taken. -/
+theorem fitN_pos (max tail : Nat) (ap : Bool) (cur : Nat) (e : Entry) (es : List Entry)
+    (h : cur + (encE ap e).length + tail ≤ max) : 0 < fitN max tail ap cur (e :: es) := by
   simp [fitN, h]
 
-theorem fitN_zero_of_no_room (max maxLen : Nat) (ap : Bool) (cur : Nat) (es : List Entry)
-    (h : ¬ max > cur + maxLen) : fitN max maxLen ap cur es = 0 := by
-  cases es <;> simp [fitN, h]
+/-- every entry fits a frame of its own -/
+def FitS (max tail : Nat) (ap : Bool) (cur : Nat) (r : List Entry) : Prop :=
+  ∀ e ∈ r, cur + (encE ap e).length + tail ≤ max
+
+theorem FitS.drop {max tail : Nat} {ap : Bool} {cur : Nat} {r : List Entry} (n : Nat) (h : FitS max tail ap cur r) :
+    FitS max tail ap cur (r.drop n) := fun e he => h e (List.mem_of_mem_drop he)
+
+theorem FitS.take {max tail : Nat} {ap : Bool} {cur : Nat} {r : List Entry} (n : Nat) (h : FitS max tail ap cur r) :
+    FitS max tail ap cur (r.take n) := fun e he => h e (List.mem_of_mem_take he)
+
+theorem fitN_pos_of_fitS {max tail : Nat} {ap : Bool} {cur : Nat} {r : List Entry} (h : FitS max tail ap cur r)
+    (hr : r ≠ []) : 0 < fitN max tail ap cur r := by
+  cases r with
+  | nil => exact absurd rfl hr
+  | cons e rest => exact fitN_pos _ _ _ _ e rest (h e (by simp))
 
 end Rbgp.Enc
